@@ -80,14 +80,16 @@ Inductive case :=
 | CIdx (input : itree) (path : list nat) (o : opk) (impl : iobs)
        (* unroll / unroll_children / encapsulate / split_one_child executed on the objects with their recorded
           parent_index (some inputs with two recorded indices swapped by hand: the invariant of C09 broken on purpose) *)
-| CDec (input : tree) (path : list nat) (o : opk) (impl : obs) (sr : Q) (ramps : list (N * (Q * Q)))
+| CDec (input : tree) (path : list nat) (o : opk) (impl : obs) (sr : Q) (ramps : list (N * list (Q * Q * Q * Q)))
        (before after : list (option Q))
        (* decimal stream: leaf durations that are no binary fractions (k/10, k/3 ...).  The tree part is exact (durations
           are rationals in the code as well) and is checked like [CRewrite]; in addition channel 0 of
           to_waveform(program) was sampled at the grid points k / sr (given to the code as correctly rounded doubles)
           before and after the rewrite.  Those samples are binary64 results: they are compared with the exact rational
-          voltage of the input program under the declared absolute tolerance [dec_tol]; atom [i] is a linear ramp from
-          [v0] (local time 0) to [v1] (local time = its duration) for (i, (v0, v1)) in [ramps]. None = NaN. *)
+          voltage of the input program under the declared absolute tolerance [dec_tol]; atom [i] is piecewise linear:
+          for (i, segs) in [ramps] and (t0, t1, v0, v1) in segs it goes from [v0] at local time t0 to [v1] at t1 on
+          [t0, t1) (a ramp is one segment over its duration; a table has one segment per pair of entries: hold v, v;
+          jump v', v'; an entry time belongs to the later segment). None = NaN. *)
 | CToWf (input : tree) (impl : result wf)
 | CSfg (n m : Z) (impl : result Z)
 | CCrash.
@@ -397,14 +399,21 @@ Definition spec_step (vol : bool) (input : tree) (path : list nat) (o : opk) (im
 (* ---- decimal stream: exact voltage of channel 0 at time t (half-open pieces, junction belongs to the later piece) *)
 Definition dec_tol : Q := 1 # 1073741824.      (* 2^-30 *)
 
-Fixpoint volt_at (ramps : list (N * (Q * Q))) (l : list piece) (t : Q) : option Q :=
+Fixpoint seg_volt (segs : list (Q * Q * Q * Q)) (t : Q) : option Q :=
+  match segs with
+  | [] => None
+  | (t0, t1, v0, v1) :: r =>
+      if Qlt_le_dec t t1 then Some (v0 + (v1 - v0) * (t - t0) / (t1 - t0))%Q else seg_volt r t
+  end.
+
+Fixpoint volt_at (ramps : list (N * list (Q * Q * Q * Q))) (l : list piece) (t : Q) : option Q :=
   match l with
   | [] => None
   | p :: r =>
       if Qlt_le_dec t (pdur p) then
         match p with
         | PAtom i d => match assoc i ramps with
-                       | Some (v0, v1) => Some (v0 + (v1 - v0) * t / d)%Q
+                       | Some segs => seg_volt segs t
                        | None => None
                        end
         | PConst _ v => assoc 0%N v
@@ -412,7 +421,7 @@ Fixpoint volt_at (ramps : list (N * (Q * Q))) (l : list piece) (t : Q) : option 
       else volt_at ramps r (Qred (t - pdur p))
   end.
 
-Fixpoint samples_ok (ramps : list (N * (Q * Q))) (pcs : list piece) (sr : Q) (k : Z) (l : list (option Q)) : bool :=
+Fixpoint samples_ok (ramps : list (N * list (Q * Q * Q * Q))) (pcs : list piece) (sr : Q) (k : Z) (l : list (option Q)) : bool :=
   match l with
   | [] => true
   | x :: r =>
@@ -423,7 +432,7 @@ Fixpoint samples_ok (ramps : list (N * (Q * Q))) (pcs : list piece) (sr : Q) (k 
   end.
 
 (* the grid covers [0, duration): floor(duration * sr) points (sr > 0) *)
-Definition dec_samples_ok (ramps : list (N * (Q * Q))) (input : tree) (sr : Q) (l : list (option Q)) : bool :=
+Definition dec_samples_ok (ramps : list (N * list (Q * Q * Q * Q))) (input : tree) (sr : Q) (l : list (option Q)) : bool :=
   Qle_bool 0 sr && negb (Qeq_bool sr 0)
   && (Z.of_nat (length l) =? Qfloor (duration input * sr))
   && samples_ok ramps (pieces input) sr 0 l.
